@@ -1,6 +1,6 @@
 (* C08: the texture/array/cube iterator and the Decoder operations refine a cursor over the
    flattened surface list. *)
-From DDSV Require Import base.Machine model.Layout model.DecoderSM spec.SpecLayout proofs.LayoutProofs.
+From DDSV Require Import base.Machine model.Layout model.DecoderSM model.EncoderSM spec.SpecLayout proofs.LayoutProofs.
 
 (* ------------------------------------------------------------ facts about one mip chain *)
 Lemma spec_mips_length p w h : forall n level off, length (spec_mips p w h level n off) = n.
@@ -530,6 +530,269 @@ Section TexIter.
         intros Hc. apply (H2 Hc e d1 eq_refl Hne). }
       destruct e; try congruence; exact G'.
   Qed.
+  (* ================================================================ Encoder (C11 / C10) *)
+  (* iterator-only part of rel *)
+  Definition it_rel (it : iter) (i : N) : Prop :=
+    exists idx level, it = ITex first len idx level /\ inv idx level /\ abs idx level = i.
+
+  Lemma it_rel_observe it i : it_rel it i ->
+    iter_current it = Some (if i <? total then Some (info_at (i mod mips)) else None).
+  Proof.
+    intros [idx [level [-> [Hinv Ha]]]]. pose proof Hinv as [Hi [Hl He]].
+    destruct (abs_divmod idx level Hl) as [Hdv Hmo]. rewrite Ha in Hdv, Hmo. rewrite Hmo.
+    pose proof (abs_lt idx level Hinv) as Hlt. rewrite Ha in Hlt.
+    destruct (N.ltb_spec i total) as [H|H].
+    - apply cur_in; [apply Hlt; exact H|exact Hl].
+    - apply cur_end. destruct (N.lt_ge_cases idx len) as [H'|H']; [|exact H']. apply Hlt in H'. lia.
+  Qed.
+  Lemma it_rel_le it i : it_rel it i -> i <= total.
+  Proof.
+    intros [idx [level [_ [Hinv Ha]]]]. subst i. destruct Hinv as [Hi [Hl He]].
+    destruct (N.eq_dec idx len) as [E|E].
+    - rewrite (He E). subst. unfold abs, total. lia.
+    - assert (abs idx level < total) by (apply abs_lt; [repeat split; assumption|lia]). lia.
+  Qed.
+  Lemma it_rel_advance it i : it_rel it i -> i < total ->
+    exists it', iter_advance it = Some it' /\ it_rel it' (i + 1).
+  Proof.
+    intros [idx [level [-> [Hinv Ha]]]] Hlt. pose proof Hinv as [Hi' [Hl He]].
+    assert (Hi : idx < len) by (apply (abs_lt idx level Hinv); rewrite Ha; exact Hlt).
+    destruct (adv_in idx level Hi Hl) as [idx' [level' [Hadv [Hinv' Habs]]]].
+    exists (ITex first len idx' level'). split; [exact Hadv|]. exists idx', level'. repeat split; try apply Hinv'. lia.
+  Qed.
+  Lemma c_offset_step i : i < total ->
+    c_offset (i + 1) = c_offset i + si_len (info_at (i mod mips)).
+  Proof.
+    intros Hlt. unfold c_offset.
+    pose proof (N.div_mod i mips ltac:(lia)) as E. pose proof (N.mod_lt i mips ltac:(lia)) as Hl.
+    assert (Hq : i / mips < len) by (apply N.div_lt_upper_bound; unfold total in Hlt; lia).
+    pose proof (N.div_mod (i + 1) mips ltac:(lia)) as E'. pose proof (N.mod_lt (i + 1) mips ltac:(lia)) as Hl'.
+    assert (Hinv' : inv ((i + 1) / mips) ((i + 1) mod mips)).
+    { unfold inv. assert ((i + 1) / mips <= len).
+      { apply N.lt_succ_r. apply N.div_lt_upper_bound; [lia|]. unfold total in Hlt. nia. }
+      repeat split; try assumption. intros Heq. unfold total in Hlt. nia. }
+    cbn [si_len info_at].
+    apply (offset_step (i / mips) (i mod mips) Hq Hl); [|exact Hinv']. unfold abs. lia.
+  Qed.
+
+  (* ---- mipmap generation *)
+  Variable mul : N * N.
+  Definition bad (level : N) : bool := bad_size mul (info_at level).
+  (* scanning levels level .. level+n-1: how many are written before the first refused one, and was one refused *)
+  Fixpoint scan (level : N) (n : nat) : N * bool :=
+    match n with
+    | O => (0, false)
+    | S n' => if bad level then (0, true) else (fst (scan (level + 1) n') + 1, snd (scan (level + 1) n'))
+    end.
+  Lemma scan_le level n : fst (scan level n) <= N.of_nat n.
+  Proof.
+    revert level; induction n as [|n IH]; intros level; cbn [scan]; [cbn; lia|].
+    destruct (bad level); cbn [fst]; [lia|]. specialize (IH (level + 1)). lia.
+  Qed.
+
+  (* position reached from (idx, level) after k more levels of the same texture *)
+  Definition after (idx level k : N) : N * N := if level + k <? mips then (idx, level + k) else (idx + 1, 0).
+  Lemma after_inv idx level k : idx < len -> level + k <= mips -> inv (fst (after idx level k)) (snd (after idx level k)).
+  Proof. intros Hi Hk. unfold after, inv. destruct (N.ltb_spec (level + k) mips); cbn [fst snd]; lia. Qed.
+  Lemma after_abs idx level k : level + k <= mips -> abs (fst (after idx level k)) (snd (after idx level k)) = abs idx level + k.
+  Proof. intros Hk. unfold after, abs. destruct (N.ltb_spec (level + k) mips); cbn [fst snd]; nia. Qed.
+  Lemma after_offset idx level k : level + k <= mips ->
+    offset_of (fst (after idx level k)) (snd (after idx level k)) = offset_of idx level + sum_lens p w h level (N.to_nat k).
+  Proof.
+    intros Hk. unfold after, offset_of, part.
+    pose proof (sum_lens_split p w h (N.to_nat (level + k)) 0 (N.to_nat level) ltac:(lia)) as S.
+    rewrite N.add_0_l, N2Nat.id in S. replace (N.to_nat (level + k) - N.to_nat level)%nat with (N.to_nat k) in S by lia.
+    destruct (N.ltb_spec (level + k) mips); cbn [fst snd].
+    - lia.
+    - assert (level + k = mips) by lia. cbn [N.to_nat sum_lens].
+      replace (N.to_nat (level + k)) with (N.to_nat mips) in S by lia. fold L in S. lia.
+  Qed.
+
+  Lemma gen_one fuel idx level bytes : idx < len -> 1 <= level < mips ->
+    gen_loop (S fuel) mul (ITex first len idx level) bytes =
+    if bad level then Some (ITex first len idx level, bytes, Some XInvalidSize)
+    else if level + 1 <? mips then gen_loop fuel mul (ITex first len idx (level + 1)) (bytes + si_len (info_at level))
+    else gen_loop fuel mul (ITex first len (idx + 1) 0) (bytes + si_len (info_at level)).
+  Proof.
+    intros Hi Hl. cbn [gen_loop]. rewrite cur_in by lia. cbn [si_level info_at].
+    replace (level =? 0) with false by (symmetry; apply N.eqb_neq; lia).
+    fold (info_at level). fold (bad level). destruct (bad level); [reflexivity|].
+    cbn [iter_advance]. replace (idx <? len) with true by (symmetry; apply N.ltb_lt; exact Hi).
+    replace (level + 1 <? U8) with true by (symmetry; apply N.ltb_lt; unfold U8; lia).
+    cbn [t_mips first]. destruct (level + 1 <? mips); reflexivity.
+  Qed.
+  Lemma gen_stop fuel idx bytes : gen_loop (S fuel) mul (ITex first len idx 0) bytes = Some (ITex first len idx 0, bytes, None).
+  Proof.
+    cbn [gen_loop]. destruct (N.lt_ge_cases idx len) as [Hin|Hout].
+    - rewrite cur_in by lia. cbn [si_level info_at N.eqb]. reflexivity.
+    - rewrite cur_end by lia. reflexivity.
+  Qed.
+  Lemma gen_loop_spec n : forall fuel idx level bytes, idx < len -> 1 <= level -> level + N.of_nat (S n) = mips -> (S n < fuel)%nat ->
+    gen_loop fuel mul (ITex first len idx level) bytes =
+    Some (ITex first len (fst (after idx level (fst (scan level (S n))))) (snd (after idx level (fst (scan level (S n))))),
+          bytes + sum_lens p w h level (N.to_nat (fst (scan level (S n)))),
+          if snd (scan level (S n)) then Some XInvalidSize else None).
+  Proof.
+    induction n as [|n IH]; intros fuel idx level bytes Hi Hl Hn Hf.
+    - destruct fuel as [|[|fuel]]; try lia. rewrite gen_one by lia. cbn [scan].
+      destruct (bad level); cbn [fst snd].
+      + unfold after. rewrite N.add_0_r. replace (level <? mips) with true by (symmetry; apply N.ltb_lt; lia).
+        cbn [fst snd N.to_nat sum_lens]. rewrite N.add_0_r. reflexivity.
+      + destruct (N.ltb_spec (level + 1) mips); [lia|]. rewrite gen_stop.
+        unfold after. replace (level + (0 + 1) <? mips) with false by (symmetry; apply N.ltb_ge; lia).
+        cbn [fst snd]. replace (N.to_nat (0 + 1)) with 1%nat by lia. cbn [sum_lens si_len info_at]. rewrite N.add_0_r. reflexivity.
+    - destruct fuel as [|fuel]; [lia|]. rewrite gen_one by lia.
+      change (scan level (S (S n))) with (if bad level then (0, true) else (fst (scan (level + 1) (S n)) + 1, snd (scan (level + 1) (S n)))).
+      destruct (bad level); cbn [fst snd].
+      + unfold after. rewrite N.add_0_r. replace (level <? mips) with true by (symmetry; apply N.ltb_lt; lia).
+        cbn [fst snd N.to_nat sum_lens]. rewrite N.add_0_r. reflexivity.
+      + destruct (N.ltb_spec (level + 1) mips); [|lia].
+        rewrite (IH fuel idx (level + 1) (bytes + si_len (info_at level))) by lia.
+        set (k := fst (scan (level + 1) (S n))).
+        assert (Ha : after idx level (k + 1) = after idx (level + 1) k) by (unfold after; replace (level + (k + 1)) with (level + 1 + k) by lia; reflexivity).
+        rewrite Ha. replace (N.to_nat (k + 1)) with (S (N.to_nat k)) by lia. cbn [sum_lens si_len info_at].
+        rewrite N.add_assoc. reflexivity.
+  Qed.
+
+  (* the encoder's invariant: the cursor is at flat index i and the bytes written are the header plus
+     the layout offset of that surface *)
+  Definition erel (e : encoder) (hl : N) (i : N) : Prop :=
+    e_layout e = Lay /\ it_rel (e_it e) i /\ e_bytes e = hl + c_offset i /\ e_mul e = mul.
+
+  Hypothesis HLayM : layout_mipmaps Lay = mips /\ layout_is_volume Lay = false.
+
+  Lemma c_offset_abs idx level : inv idx level -> c_offset (abs idx level) = offset_of idx level.
+  Proof. intros [_ [Hl _]]. unfold c_offset. destruct (abs_divmod idx level Hl) as [-> ->]. reflexivity. Qed.
+
+  (* result of a write at i when mipmaps are generated: how far the cursor gets, and the verdict *)
+  Definition gen_after (i : N) : N * option enc_err :=
+    let lv := i mod mips + 1 in
+    let sc := scan lv (N.to_nat (mips - lv)) in
+    (i + 1 + fst sc, if snd sc then Some XInvalidSize else None).
+  Definition generates (g : bool) (i : N) : bool := g && negb (mips - (i mod mips + 1) =? 0).
+
+  Lemma enc_write_ok e hl i ws cc : erel e hl i ->
+    let r := enc_write e ws cc in
+    if total <=? i then r = EErr XTooManySurfaces e
+    else if ws then r = EErr XUnexpectedSurfaceSize e
+    else if cc then r = EErr XCancelled e
+    else if bad (i mod mips) then r = EErr XInvalidSize e
+    else
+      let i' := if generates (e_generate e) i then fst (gen_after i) else i + 1 in
+      let x := if generates (e_generate e) i then snd (gen_after i) else None in
+      exists e', erel e' hl i' /\ e_generate e' = e_generate e /\ i < i' /\
+                 r = match x with None => EOk e' | Some y => EErr y e' end.
+  Proof.
+    intros [Hlay [Hit [Hb Hmul]]]. cbv zeta. unfold enc_write. rewrite (it_rel_observe _ _ Hit).
+    destruct (N.ltb_spec i total) as [Hlt|Hge]; destruct (N.leb_spec total i) as [Hge'|Hlt']; try lia; [|reflexivity].
+    destruct ws; [reflexivity|]. destruct cc; [reflexivity|].
+    rewrite Hmul. fold (bad (i mod mips)). destruct (bad (i mod mips)); [reflexivity|].
+    destruct (it_rel_advance _ _ Hit Hlt) as [it1 [Hadv Hit1]]. rewrite Hadv.
+    rewrite Hlay. destruct HLayM as [-> ->]. cbn [negb]. rewrite andb_true_r. cbn [si_level info_at].
+    unfold generates.
+    destruct (e_generate e) eqn:Eg; cbn [andb];
+      [destruct (N.eqb_spec (mips - (i mod mips + 1)) 0) as [Hz|Hz]; cbn [negb]|].
+    - eexists. split; [|split; [|split; [|reflexivity]]]; [|reflexivity|lia].
+      unfold erel. cbn [e_layout e_it e_bytes e_mul]. repeat split; try assumption. rewrite Hb, c_offset_step by exact Hlt. lia.
+    - destruct Hit1 as [idx [level [-> [Hinv Ha]]]].
+      pose proof (N.div_mod i mips ltac:(lia)) as E. pose proof (N.mod_lt i mips ltac:(lia)) as Hl.
+      assert (Hq : i / mips < len) by (apply N.div_lt_upper_bound; unfold total in Hlt; lia).
+      assert (Hidx : idx = i / mips /\ level = i mod mips + 1).
+      { destruct Hinv as [Hi [Hlv _]]. unfold abs in Ha.
+        apply (N.div_mod_unique mips idx (i / mips) level (i mod mips + 1)); lia. }
+      destruct Hidx as [-> ->].
+      destruct (N.to_nat (mips - (i mod mips + 1))) as [|k] eqn:Ek; [lia|].
+      rewrite (gen_loop_spec k 256 (i / mips) (i mod mips + 1) _) by lia.
+      unfold gen_after. cbv zeta. rewrite Ek. cbn [fst snd].
+      set (sc := scan (i mod mips + 1) (S k)).
+      pose proof (scan_le (i mod mips + 1) (S k)) as Hsc. fold sc in Hsc.
+      assert (Hk : i mod mips + 1 + fst sc <= mips) by lia.
+      assert (Hrel' : erel (mkEncoder Lay (ITex first len (fst (after (i / mips) (i mod mips + 1) (fst sc))) (snd (after (i / mips) (i mod mips + 1) (fst sc))))
+                              (e_bytes e + si_len (info_at (i mod mips)) + sum_lens p w h (i mod mips + 1) (N.to_nat (fst sc))) true mul) hl (i + 1 + fst sc)).
+      { unfold erel. cbn [e_layout e_it e_bytes e_mul]. split; [reflexivity|].
+        pose proof (after_inv (i / mips) (i mod mips + 1) (fst sc) Hq Hk) as Hinv'.
+        pose proof (after_abs (i / mips) (i mod mips + 1) (fst sc) Hk) as Habs'.
+        split; [|split; [|reflexivity]].
+        - eexists _, _. split; [reflexivity|]. split; [exact Hinv'|]. rewrite Habs'. lia.
+        - replace (i + 1 + fst sc) with (abs (fst (after (i / mips) (i mod mips + 1) (fst sc))) (snd (after (i / mips) (i mod mips + 1) (fst sc)))) by (rewrite Habs'; lia).
+          rewrite (c_offset_abs _ _ Hinv'), after_offset by exact Hk.
+          rewrite Hb. rewrite <- (c_offset_abs (i / mips) (i mod mips + 1) Hinv). rewrite Ha. rewrite c_offset_step by exact Hlt. lia. }
+      destruct (snd sc); eexists; (split; [exact Hrel'|split; [reflexivity|split; [lia|reflexivity]]]).
+    - eexists. split; [|split; [|split; [|reflexivity]]]; [|reflexivity|lia].
+      unfold erel. cbn [e_layout e_it e_bytes e_mul]. repeat split; try assumption. rewrite Hb, c_offset_step by exact Hlt. lia.
+  Qed.
+
+  Lemma enc_finish_ok e hl i : erel e hl i ->
+    match enc_finish e with
+    | EOk e' => e' = e /\ i = total
+    | EErr XMissingSurfaces e' => e' = e /\ i < total
+    | _ => False
+    end.
+  Proof.
+    intros [Hlay [Hit [Hb _]]]. unfold enc_finish. rewrite (it_rel_observe _ _ Hit).
+    pose proof (it_rel_le _ _ Hit). destruct (N.ltb_spec i total); [auto|]. split; [reflexivity|lia].
+  Qed.
+
+  (* spec: the encoder accepts exactly the surfaces of the layout in order *)
+  Definition x_step (g : bool) (i : N) (op : enc_op) : option enc_err * bool * N :=
+    match op with
+    | EWrite ws cc =>
+        if total <=? i then (Some XTooManySurfaces, g, i)
+        else if ws then (Some XUnexpectedSurfaceSize, g, i)
+        else if cc then (Some XCancelled, g, i)
+        else if bad (i mod mips) then (Some XInvalidSize, g, i)
+        else if generates g i then (snd (gen_after i), g, fst (gen_after i)) else (None, g, i + 1)
+    | EToggle => (None, negb g, i)
+    | EFinish => if i =? total then (None, g, i) else (Some XMissingSurfaces, g, i)
+    end.
+
+  Fixpoint enc_sim (e : encoder) (hl i : N) (ops : list enc_op) : Prop :=
+    match ops with
+    | [] => True
+    | op :: rest =>
+        let xs := x_step (e_generate e) i op in
+        match enc_step e op with
+        | EOk e' => fst (fst xs) = None /\ erel e' hl (snd xs) /\ e_generate e' = snd (fst xs) /\ enc_sim e' hl (snd xs) rest
+        | EErr y e' => fst (fst xs) = Some y /\ erel e' hl (snd xs) /\ e_generate e' = snd (fst xs) /\
+                       (snd xs = i -> e' = e)            (* a call that does not move the cursor changes nothing *)
+                       /\ enc_sim e' hl (snd xs) rest
+        | EPanic => False
+        end
+    end.
+
+  Lemma enc_sim_holds ops : forall e hl i, erel e hl i -> enc_sim e hl i ops.
+  Proof.
+    induction ops as [|op rest IH]; intros e hl i Hrel; cbn [enc_sim]; [exact I|].
+    assert (Hsame : forall y : enc_err, Some y = Some y /\ erel e hl i /\ e_generate e = e_generate e /\ (i = i -> e = e) /\ enc_sim e hl i rest).
+    { intros y. split; [reflexivity|]. split; [exact Hrel|]. split; [reflexivity|]. split; [reflexivity|]. apply IH. exact Hrel. }
+    destruct op as [ws cc| |]; cbn [x_step enc_step]; cbv zeta.
+    - pose proof (enc_write_ok e hl i ws cc Hrel) as H. cbv zeta in H.
+      destruct (N.leb_spec total i); [rewrite H; cbn [fst snd]; apply Hsame|].
+      destruct ws; [rewrite H; cbn [fst snd]; apply Hsame|].
+      destruct cc; [rewrite H; cbn [fst snd]; apply Hsame|].
+      destruct (bad (i mod mips)); [rewrite H; cbn [fst snd]; apply Hsame|].
+      destruct H as [e' [Hrel' [Hg [Hlt Hr]]]]. rewrite Hr.
+      destruct (generates (e_generate e) i).
+      + destruct (snd (gen_after i)) as [y'|]; cbn [fst snd].
+        * split; [reflexivity|]. split; [exact Hrel'|]. split; [exact Hg|]. split; [intros; lia|]. apply IH. exact Hrel'.
+        * split; [reflexivity|]. split; [exact Hrel'|]. split; [exact Hg|]. apply IH. exact Hrel'.
+      + cbn [fst snd]. split; [reflexivity|]. split; [exact Hrel'|]. split; [exact Hg|]. apply IH. exact Hrel'.
+    - cbn [fst snd]. split; [reflexivity|]. destruct Hrel as [A [B [C D]]].
+      assert (Hr : erel (mkEncoder (e_layout e) (e_it e) (e_bytes e) (negb (e_generate e)) (e_mul e)) hl i) by (repeat split; assumption).
+      split; [exact Hr|]. split; [reflexivity|]. apply IH. exact Hr.
+    - pose proof (enc_finish_ok e hl i Hrel) as H.
+      destruct (enc_finish e) as [e'|y e'|]; [| |exact H].
+      + destruct H as [-> ->]. rewrite N.eqb_refl. cbn [fst snd]. split; [reflexivity|]. split; [exact Hrel|]. split; [reflexivity|]. apply IH. exact Hrel.
+      + destruct y; try contradiction. destruct H as [-> Hlt].
+        destruct (N.eqb_spec i total); [lia|]. cbn [fst snd]. apply Hsame.
+  Qed.
+
+  Lemma erel_init hl g : erel (enc_init Lay hl g mul) hl 0.
+  Proof.
+    unfold erel, enc_init. cbn [e_layout e_it e_bytes e_mul]. split; [reflexivity|]. split; [|split; [|reflexivity]].
+    - exists 0, 0. rewrite HLay. split; [reflexivity|]. split; [unfold inv; lia|]. unfold abs. lia.
+    - unfold c_offset. rewrite N.div_0_l, N.mod_0_l by lia. unfold offset_of, part. cbn. lia.
+  Qed.
 End TexIter.
 
 (* ------------------------------------------------------------ the cursor is an index into the flattened list *)
@@ -623,4 +886,490 @@ Proof.
   pose proof (spec_shape_mips h sh H1 Hs) as Hm.
   pose proof (decoder_refines_cursor_tex sh p ops Hp Hf Hm) as T.
   destruct sh; cbn [layout_of_shape t_p t_w t_h t_mips a_p a_w a_h a_mips a_len] in *; exact T.
+Qed.
+
+(* ================================================================ volumes (VolumeSurfaceIterator) *)
+Lemma spec_volds_length p w h d : forall n level off, length (spec_volds p w h d level n off) = n.
+Proof. induction n as [|n IH]; intros; cbn [spec_volds length]; [reflexivity|]. rewrite IH. reflexivity. Qed.
+
+Lemma sum_vol_split p w h d : forall n level k, (k <= n)%nat ->
+  sum_vol p w h d level n = sum_vol p w h d level k + sum_vol p w h d (level + N.of_nat k) (n - k).
+Proof.
+  induction n as [|n IH]; intros level k Hk.
+  - replace k with 0%nat by lia. cbn. reflexivity.
+  - destruct k as [|k].
+    + cbn [sum_vol]. rewrite N.add_0_r. cbn [Nat.sub]. reflexivity.
+    + cbn [sum_vol Nat.sub]. rewrite (IH (level + 1) k) by lia.
+      replace (level + 1 + N.of_nat k) with (level + N.of_nat (S k)) by lia. lia.
+Qed.
+Lemma sum_vol_le p w h d n level k : (k <= n)%nat -> sum_vol p w h d level k <= sum_vol p w h d level n.
+Proof. intros Hk. rewrite (sum_vol_split p w h d n level k Hk). lia. Qed.
+
+Lemma spec_volds_nth p w h d : forall n level off k, (k < n)%nat ->
+  nth_error (spec_volds p w h d level n off) k =
+  Some (mkVold (mip_dim w (level + N.of_nat k)) (mip_dim h (level + N.of_nat k)) (mip_dim d (level + N.of_nat k))
+               (off + sum_vol p w h d level k)
+               (spec_len p (mip_dim w (level + N.of_nat k)) (mip_dim h (level + N.of_nat k)))).
+Proof.
+  induction n as [|n IH]; intros level off k Hk; [lia|].
+  destruct k as [|k]; cbn [spec_volds nth_error sum_vol].
+  - rewrite !N.add_0_r. reflexivity.
+  - rewrite IH by lia. replace (level + 1 + N.of_nat k) with (level + N.of_nat (S k)) by lia.
+    rewrite N.add_assoc. reflexivity.
+Qed.
+Lemma firstn_spec_volds p w h d : forall n level off k, (k <= n)%nat ->
+  firstn k (spec_volds p w h d level n off) = spec_volds p w h d level k off.
+Proof.
+  induction n as [|n IH]; intros level off k Hk.
+  - replace k with 0%nat by lia. reflexivity.
+  - destruct k as [|k]; cbn [spec_volds firstn]; [reflexivity|]. rewrite IH by lia. reflexivity.
+Qed.
+Lemma skipn_spec_volds p w h d : forall n level off k, (k <= n)%nat ->
+  skipn k (spec_volds p w h d level n off) =
+  spec_volds p w h d (level + N.of_nat k) (n - k) (off + sum_vol p w h d level k).
+Proof.
+  induction n as [|n IH]; intros level off k Hk.
+  - replace k with 0%nat by lia. cbn. reflexivity.
+  - destruct k as [|k]; cbn [spec_volds skipn sum_vol Nat.sub].
+    + rewrite !N.add_0_r. reflexivity.
+    + rewrite IH by lia. replace (level + 1 + N.of_nat k) with (level + N.of_nat (S k)) by lia.
+      rewrite N.add_assoc. reflexivity.
+Qed.
+(* summing the per-level lengths the way skip_mipmaps / elapsed_bytes do *)
+Lemma sum_volds p w h d : forall n level off base, base + sum_vol p w h d level n < U64 ->
+  (let? ls := omap vold_data_len (spec_volds p w h d level n off) in sum64 ls base) = Some (base + sum_vol p w h d level n).
+Proof.
+  induction n as [|n IH]; intros level off base Hfit; cbn [spec_volds omap sum_vol] in *.
+  - cbn. f_equal. lia.
+  - unfold vold_data_len at 1. cbn [vd_slice vd_d]. unfold unchecked_mul64, checked_mul64.
+    set (sl := spec_len p (mip_dim w level) (mip_dim h level)) in *. set (dd := mip_dim d level) in *.
+    replace (sl * dd <? U64) with true by (symmetry; apply N.ltb_lt; lia). cbn [obind].
+    specialize (IH (level + 1) (off + dd * sl) (base + sl * dd) ltac:(lia)).
+    destruct (omap vold_data_len (spec_volds p w h d (level + 1) n (off + dd * sl))) as [ls|]; cbn [obind] in *; [|discriminate IH].
+    cbn [sum64]. unfold unchecked_add64, checked_add64.
+    replace (base + sl * dd <? U64) with true by (symmetry; apply N.ltb_lt; lia). cbn [obind].
+    rewrite IH. f_equal. lia.
+Qed.
+
+Section VolIter.
+  Variables (p : pixel_info) (w h d mips : N).
+  Let T := sum_vol p w h d 0 (N.to_nat mips).
+  Let v := mkVol w h d mips p.
+  Hypothesis Hp : wf_pixel_info p.
+  Hypothesis Hm : 1 <= mips <= 255.
+  Hypothesis HT : T < U64.
+
+  Definition dl (level : N) : N := mip_dim d level.
+  Definition sl (level : N) : N := spec_len p (mip_dim w level) (mip_dim h level).
+  Definition voff (level : N) : N := sum_vol p w h d 0 (N.to_nat level).
+
+  Lemma dl_pos level : 1 <= dl level. Proof. apply mip_dim_pos. Qed.
+  Lemma sl_pos level : 1 <= sl level.
+  Proof. apply spec_len_pos; [exact Hp|apply mip_dim_pos|apply mip_dim_pos]. Qed.
+  Lemma voff_le level : level <= mips -> voff level <= T.
+  Proof. intros Hl. apply sum_vol_le. lia. Qed.
+  Lemma voff_succ level : level < mips -> voff (level + 1) = voff level + dl level * sl level.
+  Proof.
+    intros Hl. unfold voff. replace (N.to_nat (level + 1)) with (S (N.to_nat level)) by lia.
+    rewrite (sum_vol_split p w h d (S (N.to_nat level)) 0 (N.to_nat level)) by lia.
+    replace (S (N.to_nat level) - N.to_nat level)%nat with 1%nat by lia.
+    cbn [sum_vol]. rewrite N.add_0_l, N2Nat.id. unfold dl, sl. lia.
+  Qed.
+
+  Lemma v_mips : vol_iter_mips v = Some (spec_volds p w h d 0 (N.to_nat mips) 0).
+  Proof. unfold vol_iter_mips. cbn [vo_p vo_w vo_h vo_d vo_mips v]. apply vol_iter_from_spec; [exact Hp|]. fold T. lia. Qed.
+
+  Definition vd_at (level : N) : vold := mkVold (mip_dim w level) (mip_dim h level) (dl level) (voff level) (sl level).
+  Lemma v_get_in level : level < mips -> vol_get v level = Some (Some (vd_at level)).
+  Proof.
+    intros Hl. unfold vol_get. rewrite v_mips. cbn [obind]. rewrite spec_volds_nth by lia.
+    rewrite !N.add_0_l, N2Nat.id. reflexivity.
+  Qed.
+  Lemma v_get_out level : mips <= level -> vol_get v level = Some None.
+  Proof.
+    intros Hl. unfold vol_get. rewrite v_mips. cbn [obind]. f_equal. apply nth_error_None. rewrite spec_volds_length. lia.
+  Qed.
+
+  Definition vinv (level depth : N) : Prop := (level < mips /\ depth < dl level) \/ (level = mips /\ depth = 0).
+  Definition vpos (level depth : N) : N := voff level + depth * sl level.
+  Definition vinfo (level : N) : sinfo := mkSI (mip_dim w level) (mip_dim h level) (sl level) level.
+
+  Lemma slice_fits level depth : level < mips -> depth <= dl level -> voff level + depth * sl level <= T.
+  Proof.
+    intros Hl Hd. pose proof (voff_succ level Hl) as S. pose proof (voff_le (level + 1) ltac:(lia)) as B.
+    assert (depth * sl level <= dl level * sl level) by (apply N.mul_le_mono_r; exact Hd). lia.
+  Qed.
+  Lemma vpos_le level depth : vinv level depth -> vpos level depth <= T.
+  Proof.
+    intros [[Hl Hd]|[-> ->]]; unfold vpos.
+    - apply slice_fits; lia.
+    - rewrite N.mul_0_l, N.add_0_r. apply voff_le. lia.
+  Qed.
+
+  Lemma vcur_in level depth : level < mips -> depth < dl level ->
+    iter_current (IVol v level depth) = Some (Some (vinfo level)).
+  Proof.
+    intros Hl Hd. cbn [iter_current]. rewrite v_get_in by exact Hl. cbn [obind vd_d vd_at].
+    replace (depth <? dl level) with true by (symmetry; apply N.ltb_lt; exact Hd). cbn [negb].
+    unfold get_depth_slice. cbn [vd_d vd_at]. replace (depth <? dl level) with true by (symmetry; apply N.ltb_lt; exact Hd).
+    unfold depth_slice, unchecked_mul64, unchecked_add64, checked_mul64, checked_add64. cbn [vd_slice vd_off vd_w vd_h vd_at].
+    pose proof (slice_fits level depth Hl ltac:(lia)) as F.
+    assert (depth * sl level <= T) by lia.
+    replace (depth * sl level <? U64) with true by (symmetry; apply N.ltb_lt; lia). cbn [obind].
+    replace (voff level + depth * sl level <? U64) with true by (symmetry; apply N.ltb_lt; lia). cbn [obind s_w s_h s_len].
+    reflexivity.
+  Qed.
+  Lemma vcur_end depth : iter_current (IVol v mips depth) = Some None.
+  Proof. cbn [iter_current]. rewrite v_get_out by lia. reflexivity. Qed.
+
+  (* successor / predecessor of a cursor position *)
+  Definition vnext (level depth : N) : N * N := if depth + 1 <? dl level then (level, depth + 1) else (level + 1, 0).
+  Definition vprev (level depth : N) : N * N :=
+    if 0 <? depth then (level, depth - 1) else if 0 <? level then (level - 1, dl (level - 1) - 1) else (level, depth).
+
+  Lemma vadv level depth : level < mips -> depth < dl level ->
+    iter_advance (IVol v level depth) = Some (IVol v (fst (vnext level depth)) (snd (vnext level depth))) /\
+    vinv (fst (vnext level depth)) (snd (vnext level depth)) /\
+    vpos (fst (vnext level depth)) (snd (vnext level depth)) = vpos level depth + sl level.
+  Proof.
+    intros Hl Hd. cbn [iter_advance]. rewrite v_get_in by exact Hl. cbn [obind vd_d vd_at]. unfold vnext.
+    destruct (N.ltb_spec (depth + 1) (dl level)) as [Hn|Hn]; cbn [fst snd].
+    - split; [reflexivity|]. split; [left; lia|]. unfold vpos. lia.
+    - replace (level + 1 <? U8) with true by (symmetry; apply N.ltb_lt; unfold U8; lia).
+      split; [reflexivity|]. split.
+      + destruct (N.eq_dec (level + 1) mips) as [E|E]; [right; lia|left; pose proof (dl_pos (level + 1)); lia].
+      + unfold vpos. rewrite voff_succ by exact Hl. assert (depth + 1 = dl level) by lia. nia.
+  Qed.
+  Lemma vadv_end depth : iter_advance (IVol v mips depth) = Some (IVol v mips depth).
+  Proof. cbn [iter_advance]. rewrite v_get_out by lia. reflexivity. Qed.
+
+  Lemma vrew level depth : vinv level depth ->
+    iter_rewind (IVol v level depth) = Some (IVol v (fst (vprev level depth)) (snd (vprev level depth))) /\
+    vinv (fst (vprev level depth)) (snd (vprev level depth)) /\
+    vpos (fst (vprev level depth)) (snd (vprev level depth)) <= vpos level depth /\
+    ((level = 0 /\ depth = 0) \/ vpos level depth = vpos (fst (vprev level depth)) (snd (vprev level depth)) + sl (fst (vprev level depth))).
+  Proof.
+    intros Hinv. cbn [iter_rewind]. unfold vprev.
+    destruct (N.ltb_spec 0 depth) as [Hd|Hd]; cbn [fst snd].
+    - split; [reflexivity|]. destruct Hinv as [[Hl Hdd]|[_ ->]]; [|lia].
+      split; [left; lia|]. unfold vpos. split; [nia|]. right. nia.
+    - assert (depth = 0) by lia. subst depth. destruct (N.ltb_spec 0 level) as [Hl|Hl]; cbn [fst snd].
+      + assert (Hlm : level - 1 < mips) by (destruct Hinv as [[? ?]|[? ?]]; lia).
+        rewrite v_get_in by exact Hlm. cbn [obind vd_d vd_at].
+        pose proof (dl_pos (level - 1)) as Hdp.
+        replace (0 <? dl (level - 1)) with true by (symmetry; apply N.ltb_lt; lia).
+        split; [reflexivity|]. split; [left; lia|]. unfold vpos.
+        pose proof (voff_succ (level - 1) Hlm) as S. replace (level - 1 + 1) with level in S by lia.
+        split; [nia|]. right. nia.
+      + split; [reflexivity|]. split; [exact Hinv|]. split; [lia|]. left. lia.
+  Qed.
+
+  Lemma velapsed level depth : vinv level depth -> iter_elapsed (IVol v level depth) = Some (vpos level depth).
+  Proof.
+    intros Hinv. pose proof (vpos_le level depth Hinv) as Hle. cbn [iter_elapsed]. rewrite v_mips. cbn [obind].
+    rewrite spec_volds_length.
+    assert (Hlm : level <= mips) by (destruct Hinv as [[? ?]|[? ?]]; lia).
+    replace (N.of_nat (N.to_nat mips) <? level) with false by (symmetry; apply N.ltb_ge; lia).
+    rewrite firstn_spec_volds by lia.
+    pose proof (sum_volds p w h d (N.to_nat level) 0 0 0) as SV. cbn zeta in SV. fold (voff level) in SV.
+    rewrite N.add_0_l in SV. specialize (SV ltac:(pose proof (voff_le level Hlm); lia)).
+    destruct (omap vold_data_len (spec_volds p w h d 0 (N.to_nat level) 0)) as [ls|]; cbn [obind] in *; [|discriminate SV].
+    rewrite SV. cbn [obind].
+    destruct Hinv as [[Hl Hd]|[-> ->]].
+    - rewrite spec_volds_nth by lia. rewrite !N.add_0_l, N2Nat.id. fold (voff level) (dl level) (sl level).
+      unfold get_depth_slice. cbn [vd_d]. pose proof (dl_pos level).
+      replace (0 <? dl level) with true by (symmetry; apply N.ltb_lt; lia).
+      unfold depth_slice, unchecked_mul64, unchecked_add64, checked_mul64, checked_add64. cbn [vd_slice vd_off vd_w vd_h].
+      rewrite N.mul_0_l. replace (0 <? U64) with true by reflexivity. cbn [obind].
+      pose proof (voff_le level Hlm). replace (voff level + 0 <? U64) with true by (symmetry; apply N.ltb_lt; lia). cbn [obind s_len].
+      unfold vpos in *. replace (sl level * depth <? U64) with true by (symmetry; apply N.ltb_lt; nia). cbn [obind].
+      replace (voff level + sl level * depth <? U64) with true by (symmetry; apply N.ltb_lt; nia). f_equal. lia.
+    - replace (nth_error (spec_volds p w h d 0 (N.to_nat mips) 0) (N.to_nat mips)) with (@None vold)
+        by (symmetry; apply nth_error_None; rewrite spec_volds_length; lia).
+      unfold vpos. f_equal. lia.
+  Qed.
+
+  Lemma vskip_mid level : 0 < level < mips ->
+    iter_skip_mipmaps (IVol v level 0) = SkipOk (IVol v mips 0) (T - voff level).
+  Proof.
+    intros Hl. cbn [iter_skip_mipmaps N.eqb negb]. cbn [vo_mips v].
+    replace (level =? 0) with false by (symmetry; apply N.eqb_neq; lia).
+    replace (mips <=? level) with false by (symmetry; apply N.leb_gt; lia). cbn [orb].
+    rewrite v_mips. rewrite skipn_spec_volds by lia.
+    pose proof (sum_vol_split p w h d (N.to_nat mips) 0 (N.to_nat level) ltac:(lia)) as S. fold T in S. fold (voff level) in S.
+    rewrite N.add_0_l, N2Nat.id in S.
+    pose proof (sum_volds p w h d (N.to_nat mips - N.to_nat level) (0 + N.of_nat (N.to_nat level)) (0 + sum_vol p w h d 0 (N.to_nat level)) 0) as SV.
+    cbn zeta in SV. rewrite !N.add_0_l, N2Nat.id in SV. specialize (SV ltac:(lia)).
+    rewrite !N.add_0_l, N2Nat.id.
+    destruct (omap vold_data_len _) as [ls|]; cbn [obind] in *; [|discriminate SV].
+    rewrite SV. rewrite N.eqb_refl. cbn [negb]. f_equal. lia.
+  Qed.
+  (* ---- Decoder over a volume: the spec cursor is the pair (level, depth) *)
+  Definition vc_step (c : N * N) (op : dec_op) : cres * (N * N) :=
+    let consume (bad : bool) (e : dec_err) :=
+      if mips <=? fst c then (CErr ENoMoreSurfaces, c) else if bad then (CErr e, c) else (COk, vnext (fst c) (snd c)) in
+    match op with
+    | OpRead ws => consume ws EUnexpectedSurfaceSize
+    | OpRect oob => consume oob ERectOutOfBounds
+    | OpSkip => consume false EIo
+    | OpSkipMips =>
+        if negb (snd c =? 0) then (CErr ECannotSkipMipmapsInVolume, c)
+        else if (fst c =? 0) || (mips <=? fst c) then (COk, c) else (COk, (mips, 0))
+    | OpRewindPrev => (COk, vprev (fst c) (snd c))
+    | OpRewindStart => (COk, (0, 0))
+    | OpCube _ => (CErr ENotACubeMap, c)
+    end.
+
+  Definition vrel (dd : decoder) (c : N * N) : Prop :=
+    d_layout dd = LVolume v /\ d_it dd = IVol v (fst c) (snd c) /\ vinv (fst c) (snd c) /\ d_pos dd = vpos (fst c) (snd c).
+
+  Lemma vrel_init : vrel (dec_init (LVolume v)) (0, 0).
+  Proof.
+    unfold vrel, dec_init. cbn [d_layout d_it d_pos iter_new fst snd].
+    split; [reflexivity|]. split; [reflexivity|]. split; [left; pose proof (dl_pos 0); split; lia|].
+    unfold vpos, voff. cbn. lia.
+  Qed.
+
+  Lemma vrel_observe dd c : vrel dd c ->
+    iter_current (d_it dd) = Some (if fst c <? mips then Some (vinfo (fst c)) else None) /\ d_pos dd = vpos (fst c) (snd c).
+  Proof.
+    intros [_ [Hit [Hinv Hpos]]]. split; [|exact Hpos]. rewrite Hit. destruct Hinv as [[Hl Hd]|[Hl Hd]].
+    - replace (fst c <? mips) with true by (symmetry; apply N.ltb_lt; exact Hl). apply vcur_in; assumption.
+    - rewrite Hl. rewrite N.ltb_irrefl. apply vcur_end.
+  Qed.
+
+  Definition vagrees (rc : dres * list (N * N * N)) (dd : decoder) (c : N * N) (x : cres * (N * N)) : Prop :=
+    match fst rc with
+    | DOk d' => fst x = COk /\ vrel d' (snd x) /\ snd rc = []
+    | DErr EIo _ => I64MAX < T
+    | DErr e d' => fst x = CErr e /\ d' = dd /\ snd x = c /\ snd rc = []
+    | DPanic => False
+    end.
+
+  Lemma vconsume_ok dd c (bad : bool) (e : dec_err) (skip : bool) : vrel dd c -> e <> EIo \/ bad = false ->
+    let r := match iter_current (d_it dd) with
+             | None => DPanic
+             | Some None => DErr ENoMoreSurfaces dd
+             | Some (Some si) =>
+                 if bad then DErr e dd else
+                 match (if skip then io_skip (d_pos dd) (si_len si) else Some (d_pos dd + si_len si)) with
+                 | None => DErr EIo dd
+                 | Some pp => match iter_advance (d_it dd) with None => DPanic | Some it' => DOk (mkDec (d_layout dd) it' pp) end
+                 end
+             end in
+    vagrees (r, []) dd c (if mips <=? fst c then (CErr ENoMoreSurfaces, c) else if bad then (CErr e, c) else (COk, vnext (fst c) (snd c))).
+  Proof.
+    intros Hrel He. destruct (vrel_observe dd c Hrel) as [Hcur Hpos]. destruct Hrel as [Hlay [Hit [Hinv _]]].
+    cbv zeta. rewrite Hcur. unfold vagrees. cbn [fst snd].
+    destruct (N.ltb_spec (fst c) mips) as [Hl|Hl]; destruct (N.leb_spec mips (fst c)) as [Hl'|Hl']; try lia.
+    2:{ cbn. auto. }
+    destruct bad.
+    - cbn [fst snd]. destruct e; try (cbn; auto; fail). destruct He; congruence.
+    - destruct Hinv as [[_ Hd]|[Hx _]]; [|lia].
+      destruct (vadv (fst c) (snd c) Hl Hd) as [Hadv [Hinv' Hpos']].
+      assert (Hfit : vpos (fst c) (snd c) + sl (fst c) <= T) by (rewrite <- Hpos'; apply vpos_le; exact Hinv').
+      cbn [si_len vinfo].
+      assert (Hnew : forall pp, pp = d_pos dd + sl (fst c) ->
+                vrel (mkDec (d_layout dd) (IVol v (fst (vnext (fst c) (snd c))) (snd (vnext (fst c) (snd c)))) pp) (vnext (fst c) (snd c))).
+      { intros pp ->. unfold vrel. cbn [d_layout d_it d_pos]. repeat split; try assumption. rewrite Hpos'. lia. }
+      destruct skip.
+      + unfold io_skip. pose proof (sl_pos (fst c)).
+        replace (sl (fst c) =? 0) with false by (symmetry; apply N.eqb_neq; lia).
+        destruct (N.ltb_spec I64MAX (sl (fst c))); [cbn; lia|].
+        destruct (N.ltb_spec (d_pos dd + sl (fst c)) U64); [|cbn; lia].
+        rewrite Hit, Hadv. cbn [fst snd]. split; [reflexivity|]. split; [apply Hnew; reflexivity|reflexivity].
+      + rewrite Hit, Hadv. cbn [fst snd]. split; [reflexivity|]. split; [apply Hnew; reflexivity|reflexivity].
+  Qed.
+
+  Lemma vstep_ok dd c op : vrel dd c -> vagrees (dec_step dd op) dd c (vc_step c op).
+  Proof.
+    intros Hrel. destruct op as [ws|oob| | | | |ws]; cbn [dec_step vc_step]; cbv zeta.
+    - assert (Hne : EUnexpectedSurfaceSize <> EIo) by discriminate.
+      unfold read_current. exact (vconsume_ok dd c ws EUnexpectedSurfaceSize false Hrel (or_introl Hne)).
+    - assert (Hne : ERectOutOfBounds <> EIo) by discriminate.
+      unfold rect_current. exact (vconsume_ok dd c oob ERectOutOfBounds false Hrel (or_introl Hne)).
+    - unfold skip_surface. exact (vconsume_ok dd c false EIo true Hrel (or_intror eq_refl)).
+    - (* skip_mipmaps *)
+      pose proof Hrel as [Hlay [Hit [Hinv Hpos]]]. unfold skip_mipmaps, vagrees. rewrite Hit. cbn [fst snd].
+      destruct (N.eqb_spec (snd c) 0) as [Hd0|Hd0]; cbn [negb].
+      + rewrite Hd0 in *.
+        destruct (N.eqb_spec (fst c) 0) as [Hl0|Hl0]; [|destruct (N.leb_spec mips (fst c)) as [Hlm|Hlm]]; cbn [orb].
+        * cbn [iter_skip_mipmaps]. rewrite N.eqb_refl. cbn [negb]. rewrite Hl0. rewrite N.eqb_refl. cbn [orb io_skip N.eqb fst snd].
+          split; [reflexivity|]. split; [|reflexivity]. destruct c as [cl cd]. cbn [fst snd] in *. subst.
+          unfold vrel. cbn [d_layout d_it d_pos fst snd]. auto.
+        * cbn [iter_skip_mipmaps]. rewrite N.eqb_refl. cbn [negb vo_mips v].
+          replace (mips <=? fst c) with true by (symmetry; apply N.leb_le; exact Hlm). rewrite orb_true_r. cbn [io_skip N.eqb fst snd].
+          split; [reflexivity|]. split; [|reflexivity]. destruct c as [cl cd]. cbn [fst snd] in *. subst.
+          unfold vrel. cbn [d_layout d_it d_pos fst snd]. auto.
+        * rewrite vskip_mid by lia. unfold io_skip.
+          pose proof (voff_le (fst c) ltac:(lia)) as Hv.
+          assert (Hnew : vrel (mkDec (d_layout dd) (IVol v mips 0) (d_pos dd + (T - voff (fst c)))) (mips, 0)).
+          { unfold vrel. cbn [d_layout d_it d_pos fst snd]. repeat split; try assumption; [right; auto|].
+            rewrite Hpos. unfold vpos. rewrite !N.mul_0_l, !N.add_0_r. assert (voff mips = T) by reflexivity. lia. }
+          destruct (N.eqb_spec (T - voff (fst c)) 0) as [Hz|Hz].
+          -- cbn [fst snd]. split; [reflexivity|]. split; [|reflexivity]. rewrite Hz, N.add_0_r in Hnew. exact Hnew.
+          -- destruct (N.ltb_spec I64MAX (T - voff (fst c))); [cbn; lia|].
+             assert (d_pos dd <= T) by (rewrite Hpos; apply vpos_le; exact Hinv).
+             rewrite Hpos in *. unfold vpos in *. rewrite N.mul_0_l, N.add_0_r in *.
+             destruct (N.ltb_spec (voff (fst c) + (T - voff (fst c))) U64); [|cbn; lia].
+             cbn [fst snd]. split; [reflexivity|]. split; [exact Hnew|reflexivity].
+      + cbn [iter_skip_mipmaps]. replace (snd c =? 0) with false by (symmetry; apply N.eqb_neq; exact Hd0). cbn [negb fst snd]. auto.
+    - (* rewind_prev *)
+      pose proof Hrel as [Hlay [Hit [Hinv Hpos]]]. unfold rewind_prev, vagrees. rewrite Hit. cbn [fst snd].
+      rewrite (velapsed _ _ Hinv). destruct (vrew _ _ Hinv) as [Hr [Hinv' [Hle _]]]. rewrite Hr.
+      rewrite (velapsed _ _ Hinv').
+      replace (vpos (fst c) (snd c) <? vpos (fst (vprev (fst c) (snd c))) (snd (vprev (fst c) (snd c)))) with false
+        by (symmetry; apply N.ltb_ge; exact Hle).
+      unfold seek_back. pose proof (vpos_le _ _ Hinv) as Hb.
+      destruct (N.ltb_spec I64MAX (vpos (fst c) (snd c) - vpos (fst (vprev (fst c) (snd c))) (snd (vprev (fst c) (snd c))))); [cbn; lia|].
+      rewrite Hpos.
+      replace (vpos (fst c) (snd c) - vpos (fst (vprev (fst c) (snd c))) (snd (vprev (fst c) (snd c))) <=? vpos (fst c) (snd c))
+        with true by (symmetry; apply N.leb_le; lia).
+      cbn [fst snd]. split; [reflexivity|]. split; [|reflexivity].
+      unfold vrel. cbn [d_layout d_it d_pos]. repeat split; try assumption. lia.
+    - (* rewind_start *)
+      pose proof Hrel as [Hlay [Hit [Hinv Hpos]]]. unfold rewind_start, vagrees. rewrite Hit. cbn [fst snd].
+      rewrite (velapsed _ _ Hinv). unfold seek_back. pose proof (vpos_le _ _ Hinv) as Hb.
+      destruct (N.ltb_spec I64MAX (vpos (fst c) (snd c))); [cbn; lia|].
+      rewrite Hpos, N.leb_refl, N.sub_diag. cbn [fst snd]. split; [reflexivity|]. split; [|reflexivity].
+      rewrite Hlay. apply vrel_init.
+    - (* cube *)
+      destruct Hrel as [Hlay _]. unfold read_cube_map, vagrees. rewrite Hlay. cbn [layout_cube_faces fst snd]. auto.
+  Qed.
+
+  Fixpoint vsim_run (dd : decoder) (c : N * N) (ops : list dec_op) : Prop :=
+    match ops with
+    | [] => True
+    | op :: rest =>
+        let rc := dec_step dd op in
+        let x := vc_step c op in
+        match fst rc with
+        | DOk d' => fst x = COk /\ snd rc = [] /\ vrel d' (snd x) /\ vsim_run d' (snd x) rest
+        | DErr EIo _ => I64MAX < T
+        | DErr e d' => fst x = CErr e /\ snd rc = [] /\ d' = dd /\ snd x = c /\ vsim_run dd c rest
+        | DPanic => False
+        end
+    end.
+  Lemma vsim_run_holds ops : forall dd c, vrel dd c -> vsim_run dd c ops.
+  Proof.
+    induction ops as [|op rest IH]; intros dd c Hrel; cbn [vsim_run]; [exact I|].
+    pose proof (vstep_ok dd c op Hrel) as H. unfold vagrees in H.
+    destruct (fst (dec_step dd op)) as [d1|e d1|]; [| |exact H].
+    - destruct H as [A [B C]]. split; [exact A|]. split; [exact C|]. split; [exact B|]. apply IH. exact B.
+    - destruct (dec_err_eq e EIo) as [->|Hne]; [exact H|].
+      assert (G : fst (vc_step c op) = CErr e /\ d1 = dd /\ snd (vc_step c op) = c /\ snd (dec_step dd op) = [])
+        by (destruct e; try congruence; exact H).
+      destruct G as [A [-> [B C]]].
+      assert (G' : fst (vc_step c op) = CErr e /\ snd (dec_step dd op) = [] /\ dd = dd /\ snd (vc_step c op) = c /\ vsim_run dd c rest).
+      { split; [exact A|]. split; [exact C|]. split; [reflexivity|]. split; [exact B|]. apply IH. exact Hrel. }
+      destruct e; try congruence; exact G'.
+  Qed.
+
+  (* ---- Encoder over a volume: mipmaps are never generated; every write is one depth slice *)
+  Variable vmul : N * N.
+  Definition vbad (level : N) : bool := bad_size vmul (vinfo level).
+  Definition verel (e : encoder) (hl : N) (c : N * N) : Prop :=
+    e_layout e = LVolume v /\ e_it e = IVol v (fst c) (snd c) /\ vinv (fst c) (snd c) /\ e_bytes e = hl + vpos (fst c) (snd c) /\ e_mul e = vmul.
+  Definition vx_step (g : bool) (c : N * N) (op : enc_op) : option enc_err * bool * (N * N) :=
+    match op with
+    | EWrite ws cc =>
+        if mips <=? fst c then (Some XTooManySurfaces, g, c)
+        else if ws then (Some XUnexpectedSurfaceSize, g, c)
+        else if cc then (Some XCancelled, g, c)
+        else if vbad (fst c) then (Some XInvalidSize, g, c)
+        else (None, g, vnext (fst c) (snd c))
+    | EToggle => (None, negb g, c)
+    | EFinish => if fst c =? mips then (None, g, c) else (Some XMissingSurfaces, g, c)
+    end.
+  Fixpoint venc_sim (e : encoder) (hl : N) (c : N * N) (ops : list enc_op) : Prop :=
+    match ops with
+    | [] => True
+    | op :: rest =>
+        let xs := vx_step (e_generate e) c op in
+        match enc_step e op with
+        | EOk e' => fst (fst xs) = None /\ verel e' hl (snd xs) /\ e_generate e' = snd (fst xs) /\ venc_sim e' hl (snd xs) rest
+        | EErr y e' => fst (fst xs) = Some y /\ e' = e /\ snd xs = c /\ venc_sim e hl c rest
+        | EPanic => False
+        end
+    end.
+  Lemma venc_sim_holds ops : forall e hl c, verel e hl c -> venc_sim e hl c ops.
+  Proof.
+    induction ops as [|op rest IH]; intros e hl c Hrel; cbn [venc_sim]; [exact I|].
+    pose proof Hrel as [Hlay [Hit [Hinv [Hb Hmul]]]].
+    assert (Hsame : forall y : enc_err, Some y = Some y /\ e = e /\ c = c /\ venc_sim e hl c rest).
+    { intros y. split; [reflexivity|]. split; [reflexivity|]. split; [reflexivity|]. apply IH. exact Hrel. }
+    assert (Hcur : iter_current (e_it e) = Some (if fst c <? mips then Some (vinfo (fst c)) else None)).
+    { rewrite Hit. destruct Hinv as [[Hl Hd]|[Hl Hd]].
+      - replace (fst c <? mips) with true by (symmetry; apply N.ltb_lt; exact Hl). apply vcur_in; assumption.
+      - rewrite Hl. rewrite N.ltb_irrefl. apply vcur_end. }
+    destruct op as [ws cc| |]; cbn [vx_step enc_step]; cbv zeta.
+    - unfold enc_write. rewrite Hcur.
+      destruct (N.ltb_spec (fst c) mips) as [Hl|Hl]; destruct (N.leb_spec mips (fst c)) as [Hl'|Hl']; try lia.
+      2:{ cbn [fst snd]. apply Hsame. }
+      destruct ws; [cbn [fst snd]; apply Hsame|].
+      rewrite Hlay. cbn [layout_is_volume negb]. rewrite andb_false_r.
+      destruct cc; [cbn [fst snd]; apply Hsame|].
+      rewrite Hmul. fold (vbad (fst c)). destruct (vbad (fst c)); [cbn [fst snd]; apply Hsame|].
+      destruct Hinv as [[_ Hd]|[Hx _]]; [|lia].
+      destruct (vadv (fst c) (snd c) Hl Hd) as [Hadv [Hinv' Hpos']].
+      rewrite Hit, Hadv. rewrite N.eqb_refl. cbn [fst snd si_len vinfo].
+      assert (Hr : verel (mkEncoder (LVolume v) (IVol v (fst (vnext (fst c) (snd c))) (snd (vnext (fst c) (snd c)))) (e_bytes e + sl (fst c)) (e_generate e) vmul) hl (vnext (fst c) (snd c))).
+      { unfold verel. cbn [e_layout e_it e_bytes e_mul]. repeat split; try assumption. rewrite Hb, Hpos'. lia. }
+      split; [reflexivity|]. split; [exact Hr|]. split; [reflexivity|]. apply IH. exact Hr.
+    - cbn [fst snd].
+      assert (Hr : verel (mkEncoder (e_layout e) (e_it e) (e_bytes e) (negb (e_generate e)) (e_mul e)) hl c) by (repeat split; assumption).
+      split; [reflexivity|]. split; [exact Hr|]. split; [reflexivity|]. apply IH. exact Hr.
+    - unfold enc_finish. rewrite Hcur.
+      destruct (N.ltb_spec (fst c) mips) as [Hl|Hl]; destruct (N.eqb_spec (fst c) mips) as [He|He]; try lia.
+      + cbn [fst snd]. apply Hsame.
+      + cbn [fst snd]. split; [reflexivity|]. split; [exact Hrel|]. split; [reflexivity|]. apply IH. exact Hrel.
+      + exfalso. destruct Hinv as [[? ?]|[? ?]]; lia.
+  Qed.
+  Lemma verel_init hl g : verel (enc_init (LVolume v) hl g vmul) hl (0, 0).
+  Proof.
+    unfold verel, enc_init. cbn [e_layout e_it e_bytes e_mul iter_new fst snd].
+    split; [reflexivity|]. split; [reflexivity|]. split; [left; pose proof (dl_pos 0); split; lia|]. split; [|reflexivity].
+    unfold vpos, voff. cbn. lia.
+  Qed.
+
+  (* the pair cursor is an index into the flattened list of C02 *)
+  Definition dsum (level : N) : N := fold_right N.add 0 (map dl (nseq (N.to_nat level) 0)).
+End VolIter.
+
+(* ================================================================ C08 / C11 for every layout a header can yield *)
+Theorem decoder_refines_cursor_all h p L ops :
+  wf_pixel_info p -> 1 <= lh_mips h -> from_header_with h p = LOk L ->
+  match L with
+  | LTexture t => sim_run (t_p t) (t_w t) (t_h t) (t_mips t) 1 L (dec_init L) 0 ops
+  | LArray a => sim_run (a_p a) (a_w a) (a_h a) (a_mips a) (a_len a) L (dec_init L) 0 ops
+  | LVolume v => vsim_run (vo_p v) (vo_w v) (vo_h v) (vo_d v) (vo_mips v) (dec_init L) (0, 0) ops
+  end.
+Proof.
+  intros Hp H1 H. pose proof (decoder_refines_cursor_hdr h p L ops Hp H1 H) as T.
+  destruct L as [t|v|a]; try exact T.
+  destruct (from_header_ok_inv h p _ H) as [sh [Hs [[He Ht] [E Hpos]]]].
+  pose proof (spec_shape_mips h sh H1 Hs) as Hm.
+  destruct sh as [w' h' m|k w' h' m n|w' h' d' m]; try discriminate E. injection E as ->.
+  cbn [vo_p vo_w vo_h vo_d vo_mips elem_total shape_mips_ok] in *.
+  apply vsim_run_holds; try assumption. apply vrel_init; assumption.
+Qed.
+
+Theorem encoder_refines_cursor_all h p L hl g mul ops :
+  wf_pixel_info p -> 1 <= lh_mips h -> from_header_with h p = LOk L ->
+  match L with
+  | LTexture t => enc_sim (t_p t) (t_w t) (t_h t) (t_mips t) 1 L mul (enc_init L hl g mul) hl 0 ops
+  | LArray a => enc_sim (a_p a) (a_w a) (a_h a) (a_mips a) (a_len a) L mul (enc_init L hl g mul) hl 0 ops
+  | LVolume v => venc_sim (vo_p v) (vo_w v) (vo_h v) (vo_d v) (vo_mips v) mul (enc_init L hl g mul) hl (0, 0) ops
+  end.
+Proof.
+  intros Hp H1 H. destruct (from_header_ok_inv h p _ H) as [sh [Hs [[He Ht] [-> Hpos]]]].
+  pose proof (spec_shape_mips h sh H1 Hs) as Hm.
+  destruct sh as [w' h' m|k w' h' m n|w' h' d' m];
+    cbn [layout_of_shape t_p t_w t_h t_mips a_p a_w a_h a_mips a_len vo_p vo_w vo_h vo_d vo_mips elem_total exact_total shape_mips_ok] in *.
+  - apply enc_sim_holds; try assumption; try lia; try reflexivity; try (intros a Ha; discriminate Ha);
+      try (split; reflexivity); apply erel_init; try assumption; try lia; try reflexivity; try (split; reflexivity).
+  - apply enc_sim_holds; try assumption; try lia; try reflexivity;
+      try (intros a Ha; injection Ha as <-; split; reflexivity);
+      try (split; reflexivity); apply erel_init; try assumption; try lia; try reflexivity; try (split; reflexivity).
+  - apply venc_sim_holds; try assumption. apply verel_init; assumption.
 Qed.
